@@ -359,7 +359,14 @@ class Mon(object):
                         X, S.f, n, R, g, mpmath.nstr(mpf(err.numerator) / err.denominator / (mpf(bound.numerator) / bound.denominator), 8) if isinstance(err, Fraction) else mpmath.nstr(err / bound, 8)))
             else:
                 if len(outs) < 4 or outs[2] == "-":
-                    st.bump("powi_i32_min_not_judged")
+                    # n = i32::MIN: |n| = 2^31 is not an i32, so the reciprocal rule cannot be replayed through the
+                    # library.  But for |x| >= 1 + 2^-16 the power x^(2^31) > e^(2^15) overflows every supported type,
+                    # so powi(x, |n|) cannot be Ok and neither can its reciprocal.
+                    if abs(X) >= (1 << S.f) + (1 << max(S.f - 16, 0)):
+                        self.viol("powi:i32-min-ok-although-the-positive-power-overflows:%s" % fam, line,
+                                  "powi(x, i32::MIN) = Ok(%d) for |x| > 1: x^(2^31) is not representable, so its reciprocal cannot be Ok" % R)
+                    else:
+                        st.bump("powi_i32_min_not_judged")
                     return
                 k2, p2 = outcome(outs[2])
                 if k2 != "ok":
